@@ -698,6 +698,61 @@ class SymStr(Sym):
             return False
         return self[len(self.chars) - len(p):] == p
 
+    @staticmethod
+    def _is_space(c):
+        """python str.isspace for Latin-1 code points: 9-13, 28-32, 133, 160"""
+        if isinstance(c, int):
+            return chr(c).isspace()
+        t = toint(c)
+        return bool(SymBool(z3.Or(z3.And(t >= 9, t <= 13), z3.And(t >= 28, t <= 32), t == 133, t == 160)))
+
+    def strip(self, chars=None):
+        if chars is not None:
+            raise Unsupported("SymStr.strip(chars)")
+        cs = self.codes()
+        lo, hi = 0, len(cs)
+        while lo < hi and self._is_space(cs[lo]):
+            lo += 1
+        while hi > lo and self._is_space(cs[hi - 1]):
+            hi -= 1
+        return SymStr(self.chars[lo:hi])
+
+    def split(self, sep=None, maxsplit=-1):
+        if not isinstance(sep, str) or len(sep) != 1:
+            raise Unsupported("SymStr.split(%r)" % (sep,))
+        out, cur, n = [], [], 0
+        for ch, c in zip(self.chars, self.codes()):
+            is_sep = (c == ord(sep)) if isinstance(c, int) else bool(c == ord(sep))
+            if is_sep and (maxsplit < 0 or n < maxsplit):
+                out.append(SymStr(cur))
+                cur = []
+                n += 1
+            else:
+                cur.append(ch)
+        out.append(SymStr(cur))
+        return out
+
+    def replace(self, old, new, count=-1):
+        if not (isinstance(old, str) and isinstance(new, str) and len(old) == 1 and len(new) == 1) or count != -1:
+            raise Unsupported("SymStr.replace(%r,%r)" % (old, new))
+        out = []
+        for ch, c in zip(self.chars, self.codes()):
+            if isinstance(c, int):
+                out.append(new if c == ord(old) else ch)
+            else:
+                out.append(SymChar(SymInt(S(z3.If(toint(c) == ord(old), z3.IntVal(ord(new)), toint(c))), ub=256)))
+        return SymStr(out)
+
+    def lower(self):
+        out = []
+        for ch, c in zip(self.chars, self.codes()):
+            if isinstance(c, int):
+                out.append(chr(c).lower())
+            else:
+                t = toint(c)
+                out.append(SymChar(SymInt(S(z3.If(z3.Or(z3.And(t >= 65, t <= 90), z3.And(t >= 192, t <= 222, t != 215)), t + 32, t)))))
+        return SymStr(out)
+
     def __repr__(self):
         return "SymStr(%r)" % self.codes()
 
